@@ -5,6 +5,20 @@ from ..model import func_nodes, norm, AnalysisError
 from ..cfg import calls_in, _walk_noscope
 
 
+def inline_locals(e, func, expr, depth=5):
+    """Copy of expr with single-definition locals replaced by their value."""
+    import copy
+
+    class T(ast.NodeTransformer):
+        def visit_Name(self, n):
+            if isinstance(n.ctx, ast.Load) and depth > 0 and n.id in func.locals and n.id not in func.all_params():
+                defs = [d for d in e.local_defs(func, n.id) if not (isinstance(d, ast.Constant) and d.value is None)]
+                if len(defs) == 1:
+                    return inline_locals(e, func, defs[0], depth - 1)
+            return n
+    return T().visit(copy.deepcopy(expr))
+
+
 def none_test(expr):
     """(subject expr, label of the not-None branch) for `X is not None`,
     `X is None` and plain truthiness tests; None otherwise."""
